@@ -118,6 +118,13 @@ structure Script where
   /-- the server has a TLS acceptor (`Server::tls_config`): connections go through
   `ServerIoStream`'s handshake set before the accept loop sees them -/
   tls : Bool := false
+  /-- `z<1|2|3>`: a sibling server built from the same `Server` builder value runs next to the
+  server under test (harness/src/c13_x.rs).  Servers built from one builder share nothing
+  (`C13_sibling_servers_independent`): the script is executed on the model of a lone server, and the
+  sibling - whose signal never fires - is predicted to keep its call, to keep accepting and not to
+  resolve.  (`x<bits>`: `accept_http1`, `trace_fn`, `Server::layer(pass-through interceptor)` are
+  parsed and ignored like `k` and `l`: predicted to be invisible.) -/
+  sibling : Bool := false
 
 /-- an optional configuration token `<letter><digits>` at the head of `rest` -/
 def optTok (letter : Char) (rest : List String) : Option Nat × List String :=
@@ -138,7 +145,10 @@ def parseScript (case : List String) : Option Script :=
     -- optional configuration tokens, in this order: t<secs> k<secs> l<n>
     let (tmo, rest1) := optTok 't' rest0
     let (_ka, rest2) := optTok 'k' rest1
-    let (_lim, rest) := optTok 'l' rest2
+    let (_lim, rest3) := optTok 'l' rest2
+    let (_extra, rest4) := optTok 'x' rest3
+    let (sib, rest) := optTok 'z' rest4
+    if sib == some 0 then none else
     if tmo == some 0 then none else
     let g := match m with
       | "g" => some (true, false, false) | "n" => some (false, false, false)
@@ -160,7 +170,8 @@ def parseScript (case : List String) : Option Script :=
           | .burst _ _ => true | _ => false) then none
       else if !g && steps.any (fun st => match st.op with
           | .burst _ j => j != 0 | _ => false) then none
-      else some { graceful := g, age := ag, timeout := tmo, steps := steps, tcp := tcp, tls := tls }
+      else some { graceful := g, age := ag, timeout := tmo, steps := steps, tcp := tcp, tls := tls,
+                  sibling := sib.isSome }
     | _, _, _ => none
   | _ => none
 
@@ -186,13 +197,20 @@ structure Obs where
   openAtResolve : Nat
   conns : List ConnObs
   calls : List CallObs
+  /-- the sibling server's token (`z:…`), if the case has one -/
+  sibling : Option String := none
+  /-- the server polled its `incoming` stream again after the stream had ended -/
+  repolled : Bool := false
 deriving Repr
 
 def idx? (s : String) : Option (Option Nat) := if s = "-" then some none else s.toNat?.map some
 
 def parseObs (obs : List String) : Option Obs :=
   match obs with
-  | r :: rest =>
+  | r :: rest0 =>
+    let sibTok := rest0.find? (·.startsWith "z:")
+    let repolled := rest0.contains "repoll"
+    let rest := rest0.filter fun t => !(t.startsWith "z:") && t != "repoll"
     match (r.drop 1).toString.splitOn ":" with
     | [ra, op, _] =>
       let resolvedAt := (idx? ra).getD none
@@ -227,7 +245,8 @@ def parseObs (obs : List String) : Option Obs :=
             | _ => none
           | _ => none) (some ([], []))
       match go with
-      | some (cs, ks) => some { resolvedAt := resolvedAt, openAtResolve := openAt, conns := cs, calls := ks }
+      | some (cs, ks) => some { resolvedAt := resolvedAt, openAtResolve := openAt, conns := cs, calls := ks,
+                                sibling := sibTok, repolled := repolled }
       | none => none
     | _ => none
   | [] => none
@@ -433,7 +452,12 @@ def showIdx : Option Nat → String
   | some n => toString n
   | none => "-"
 
-def render (m : Sim) (tcp : Bool := false) : String :=
+/-- what the sibling server of a `z` case must show: not resolved; its first connection accepted,
+its server-streaming call (one message, OK) complete; the connection offered after the script
+accepted, the unary call on it complete -/
+def siblingExpected : String := "z:0:1:1:1:s0:1:1:1:s0"
+
+def render (m : Sim) (tcp : Bool := false) (sibling : Bool := false) : String :=
   let r := match m.resolvedAt with
     | some t => if m.st.cfgGraceful && !tcp then s!"R{t}:{m.st.openAtResolve}:ok" else s!"R{t}:*:ok"
     | none => "R-:-:-"
@@ -456,7 +480,7 @@ def render (m : Sim) (tcp : Bool := false) : String :=
           s!"k{i}:1:{hdr}:{n}:{fin}:{showIdx done}"
       | none => "k?"
     | none => "k?"
-  String.intercalate " " (r :: cs ++ ks)
+  String.intercalate " " (r :: cs ++ ks ++ (if sibling then [siblingExpected] else []))
 
 -- ------------------------------------------------------------------ spec verdict (script + observation only)
 
@@ -466,6 +490,25 @@ def gotOf (k : CallObs) : List Out :=
   ++ (match k.msgs with | some n => msgs 0 n | none => [Out.status 999998])
   ++ (match k.fin with | none => [] | some (c, true) => [Out.status c] | some (_, false) => [Out.status 999997])
   ++ (if k.expired then [Out.expired] else [])
+
+/-- The property's clauses for the SIBLING server of a `z` case, from its token alone: its signal
+never fired, so (no-spurious-resolve) it has not resolved; both connections were offered to a
+running server and are accepted; both calls were issued on them, their handlers were released, and
+the callers hold the full, true outcome (a server stream of one message ending OK; a unary OK). -/
+def siblingVerdict (tok : String) : Bool :=
+  let callOf (h m f : String) : CallObs :=
+    { started := true, hdr := if h = "0" then none else some (h == "1"), msgs := m.toNat?,
+      fin := if f = "s0" then some (0, true) else if f = "-" then none else some (999, false),
+      ns := false, doneAt := none }
+  match tok.splitOn ":" with
+  | [_, r, a0, h0, m0, f0, a1, h1, m1, f1] =>
+    let views : List Spec.Shutdown.CallView :=
+      [{ plan := Spec.Shutdown.planStream 1 0, got := gotOf (callOf h0 m0 f0), started := true, abandoned := false },
+       { plan := Spec.Shutdown.planUnary 0, got := gotOf (callOf h1 m1 f1), started := true, abandoned := false }]
+    Spec.Shutdown.noSpuriousResolve false (r != "0")
+      && a0 == "1" && a1 == "1"
+      && Spec.Shutdown.truthful views && Spec.Shutdown.acceptedCallsComplete views
+  | _ => false
 
 /-- group number of every step: steps not separated by a quiescent point share a group -/
 def groups (steps : List Step) : List Nat :=
@@ -603,7 +646,12 @@ def verdictOf (sc : Script) (o : Obs) : String :=
   let base : List (String × Bool) :=
     [("truthful-outcome", truthful finalCalls),
      ("accepted-call-completes", acceptedCallsComplete finalCalls),
-     ("served-before-shutdown", served)]
+     ("served-before-shutdown", served),
+     -- a sibling server built from the same builder is not affected by anything the script does
+     ("sibling-unaffected", !sc.sibling || (match o.sibling with
+        | some tok => siblingVerdict tok | none => false)),
+     -- a `Stream` that has yielded `None` is not polled again
+     ("incoming-not-polled-after-end", !o.repolled)]
   let shut : List (String × Bool) :=
     if sc.graceful then
       [("no-accept-after-signal", noAcceptAfterSignal (connViews none)),
@@ -643,6 +691,6 @@ def handle (case obs : List String) : String × String :=
       let startW := if racy then o.calls.map (·.started) else []
       -- the repaired accept loop (`biased;`): fixes/fix-C13-biased-accept-select.patch
       let m := simulate sc true accW startW
-      (render m sc.tcp, verdictOf sc o)
+      (render m sc.tcp sc.sibling, verdictOf sc o)
 
 end DriverC13
